@@ -9,7 +9,7 @@ import (
 func init() {
 	register(&PropDef{
 		ID:    "C27",
-		Pkgs:  []string{"grpc"},
+		Pkgs:  []string{"grpc", tr},
 		Claim: "Decides the structural part: on both client stream constructors the announced grpc-encoding is assigned exactly together with the compressor that will be used (call-option name with the registered compressor of that name, failing with INTERNAL if none is registered; else the dial-option compressor's own type), identity announcing no compressor; the compress step uses the registered (named) compressor whenever one is set and the legacy compressor only otherwise, returns the 'compressed' flag only on arms where a compressor ran and never for an empty message or without any compressor; the frame header carries that flag; the server accepts a handler-chosen send compressor only if it is identity or registered and advertised by the client, picks its response compressor by the legacy option or else by the request's encoding, and re-reads the stream's send-compressor name before every send; unsupported request encodings fail with UNIMPLEMENTED on the server and INTERNAL on the client; the decompressor used is the registered compressor named by the peer's grpc-encoding, subject to the client's accepted-compressors restriction.",
 		NotDecided:  []string{"the literal 'iff' for empty messages (sent uncompressed by design)", "correctness of the compressors themselves"},
 		Assumptions: []string{"encoding.GetCompressor returns the compressor registered under that name"},
@@ -50,6 +50,36 @@ func c27(c *Ctx) {
 			c.MustFact(gc, "no-compressor-for-identity", Cmp(FieldLoad(fName), token.NEQ, ConstOfObj(c.konst("encoding", "Identity"))))
 			c.statusCodeIn(blocksWhere(f, IsNil(CallRes(getC, 0))), f, "unregistered-compressor->Internal", "Internal")
 		}
+	})
+	c.Ob("encoding-header", "R2", "the client transport announces grpc-encoding exactly when the call header names a compressor, and announces that name", 2, func() {
+		f := c.fn(tr, "http2Client.createHeaderFields")
+		fSC := c.field(tr, "CallHdr", "SendCompress")
+		fN := c.field("golang.org/x/net/http2/hpack", "HeaderField", "Name")
+		fV := c.field("golang.org/x/net/http2/hpack", "HeaderField", "Value")
+		n := 0
+		for _, st := range storesToField(f, fN) {
+			if !ConstStr("grpc-encoding")(st.Val) {
+				continue
+			}
+			n++
+			c.MustFact(st, "announced-only-with-a-compressor-name", Cmp(FieldLoad(fSC), token.NEQ, ConstStr("")))
+			okV := false
+			for _, sv := range storesToField(f, fV) {
+				if sv.Block() == st.Block() && FieldLoad(fSC)(sv.Val) && sv.Addr.(*ssa.FieldAddr).X == st.Addr.(*ssa.FieldAddr).X {
+					okV = true
+				}
+			}
+			c.Expect(okV, st, f, "announces-the-call-header's-compressor", "grpc-encoding does not carry the call header's compressor name")
+			// skipped only when no compressor is named
+			for _, p := range st.Block().Preds {
+				for _, su := range p.Succs {
+					if su != st.Block() {
+						c.EnteredOnlyWhenExcept(su, "omitted-only-without-a-compressor-name", func(q *ssa.BasicBlock) bool { return q != p }, Cmp(FieldLoad(fSC), token.EQL, ConstStr("")))
+					}
+				}
+			}
+		}
+		c.Expect(n == 1, nil, f, "one-grpc-encoding-field", "expected exactly one grpc-encoding header field site")
 	})
 	c.Ob("compress-step", "R2", "compress(): nothing is compressed without a compressor or for an empty message; the registered compressor is used whenever set, the legacy one only otherwise; 'compressed' is returned only after a compressor ran; the frame header's first byte is that flag", 7, func() {
 		f := c.fn("grpc", "compress")
